@@ -9,7 +9,7 @@ import (
 	"encoding/json"
 	"fmt"
 	"os"
-	"sort"
+	"strings"
 	"sync"
 	"time"
 
@@ -109,6 +109,25 @@ func (c *checker) setupRigs() error {
 	return err
 }
 
+// kindOfWhere maps the entry point named in a panic witness to its phase.
+func kindOfWhere(where string) string {
+	switch {
+	case strings.Contains(where, "Parameters"):
+		return "parameters"
+	case strings.Contains(where, "Validators"):
+		return "validators"
+	case strings.Contains(where, "Results"):
+		return "results"
+	case strings.Contains(where, "StateRoot") || strings.Contains(where, "stateRoot"):
+		return "state-root"
+	case strings.Contains(where, "Transaction") || strings.Contains(where, "transactions"):
+		return "txs"
+	case strings.Contains(where, "Block"):
+		return "block"
+	}
+	return ""
+}
+
 func sortedCounts(m map[string]int64) map[string]int64 {
 	// encoding/json sorts map keys; a copy keeps the evidence detached from the live maps.
 	out := make(map[string]int64, len(m))
@@ -120,7 +139,7 @@ func sortedCounts(m map[string]int64) map[string]int64 {
 
 func main() {
 	r := evid.Start("C19", "fault_enumeration")
-	c := &checker{r: r, ctx: context.Background(), neutral: map[string]int64{}, unbound: map[string]int64{}, rejected: map[string]int64{}, reasons: map[string]map[string]int64{}}
+	c := &checker{r: r, ctx: context.Background(), neutral: map[string]int64{}, unbound: map[string]int64{}, rejected: map[string]int64{}, reasons: map[string]map[string]int64{}, sampled: map[string]bool{}}
 	if r.ReplayFile != "" {
 		// A replay re-runs the phase of the recorded witness with its tier and seed.
 		var doc struct {
@@ -128,7 +147,8 @@ func main() {
 			Seed      int64  `json:"seed"`
 			Signature string `json:"signature"`
 			Witness   struct {
-				Kind string `json:"kind"`
+				Kind  string `json:"kind"`
+				Where string `json:"where"`
 			} `json:"witness"`
 		}
 		b, err := os.ReadFile(r.ReplayFile)
@@ -141,6 +161,9 @@ func main() {
 		}
 		r.Seed = doc.Seed
 		c.onlyPhase = doc.Witness.Kind
+		if c.onlyPhase == "" {
+			c.onlyPhase = kindOfWhere(doc.Witness.Where)
+		}
 		fmt.Printf("replaying %s (tier %s seed %d phase %q)\n", doc.Signature, r.Tier, r.Seed, c.onlyPhase)
 	}
 	r.Rule = "Samples: recorded mainnet block/light blocks 25300000-25300001 (+ responses derived from them) and seeded synthetic blocks, " +
@@ -249,17 +272,4 @@ func (c *checker) flush() {
 		reasons[k] = sortedCounts(m)
 	}
 	c.r.Set("reject_reasons", reasons)
-	keys := make([]string, 0, len(c.neutral))
-	for k := range c.neutral {
-		keys = append(keys, k)
-	}
-	sort.Strings(keys)
-	for i, k := range keys {
-		if i < 3 {
-			c.r.Sample(map[string]any{"accepted_neutral": k, "count": c.neutral[k]})
-		}
-	}
-	c.r.Sample(map[string]any{"case": "block 25300000: Height+1", "expected": "rejected (mismatched block height)"})
-	c.r.Sample(map[string]any{"case": "txs 25300000: swap txs 3,4", "expected": "rejected (data hash mismatch)"})
-	c.r.Sample(map[string]any{"case": "proof of tx i checked against tx j != i, and against data hash of 25300001", "expected": "rejected"})
 }
